@@ -58,7 +58,7 @@ def tag_rules(F, rep, tag, gen, rule="R-TAG"):
     for b in F.body_list:
         if b["kind"] not in ("Fn", "AssocFn", "Closure"):
             continue
-        owner = F.body(b["owner"]) if b["kind"] == "Closure" else b
+        owner = (F.body(b.get("owner")) or b) if b["kind"] == "Closure" else b
         st = (owner.get("impl") or {}).get("self_ty")
         tys = list(owner.get("inputs", [])) + ([owner["output"]] if "output" in owner else []) + ([st] if st is not None else [])
         if not any(F.mentions_adt(t, up) for t in tys):
@@ -217,6 +217,10 @@ def run(ctx, rep):
     balance.rule_unw(ctx, rep, scope=scope)
     from . import c01 as _c01
 
+    from . import c05 as _c05
+
+    _c05.rule_data_offset(ctx, rep)  # "the count moves by one on the right allocation ... whatever their size or alignment": the union reaches the count through `Arc::from_raw`, which subtracts the payload's offset - that offset must be the field's, for every payload shape
+    balance.rule_zst_div(ctx, rep)  # "including ... zero-sized types"
     _c01.rule_destroy(ctx, rep)  # "the right destructor and layout are used": whichever code releases the union's last reference destroys the payload once and gives the block back on every exit
     from . import c13
 
@@ -765,6 +769,7 @@ def main(argv):
             "witnesses. Same-variant value equality is C14."
             " R-ARMS typed-access clause (any function building a typed borrow/handle from the union's word does so inside the arm of that variant); R-REFCNT-PAIR for the union."
             " Round thirteen/fourteen: R-DESTROY as a premise; R-TAG refuses in-bounds pointer arithmetic on the union's word (undefined behaviour for zero-sized payloads); the variant test may be the written-out tag test or a private enum decoded from it."
+            ' Round fifteen: R-OFFSET and R-ZST-DIV as premises.'
         ),
         rule_text="instances = tag construction/test/strip sites, variant arms, the parity lemma",
         trusted_base=["rustc MIR def-use", "repr(C) layout rules", "expression evaluator analysis/symx.py"],
